@@ -70,11 +70,17 @@ func main() {
 	case "run":
 		os.Exit(cmdRun(os.Args[2:]))
 	case "worker":
-		os.Exit(cmdWorker(os.Args[2:]))
+		code := cmdWorker(os.Args[2:])
+		sim.CleanupCanary()
+		os.Exit(code)
 	case "replay":
-		os.Exit(cmdReplay(os.Args[2:]))
+		code := cmdReplay(os.Args[2:])
+		sim.CleanupCanary()
+		os.Exit(code)
 	case "trace":
-		os.Exit(cmdTrace(os.Args[2:]))
+		code := cmdTrace(os.Args[2:])
+		sim.CleanupCanary()
+		os.Exit(code)
 	}
 	fmt.Fprintln(os.Stderr, "unknown command", os.Args[1])
 	os.Exit(2)
@@ -83,6 +89,7 @@ func main() {
 func watchdog(d time.Duration, what *string) *time.Timer {
 	return time.AfterFunc(d, func() {
 		fmt.Fprintf(os.Stderr, "WATCHDOG: run exceeded %v: %s\n", d, *what)
+		sim.CleanupCanary()
 		os.Exit(2)
 	})
 }
@@ -672,6 +679,9 @@ func cmdRun(args []string) int {
 		fmt.Printf("WARNING: reach probes at zero: %v\n", zeroProbes)
 	}
 	if harness != "" {
+		if len(harness) > 3000 {
+			harness = harness[:3000] + "\n... (truncated)\n"
+		}
 		fmt.Fprintf(os.Stderr, "HARNESS ERROR:\n%s", harness)
 		return 2
 	}
